@@ -76,7 +76,11 @@ func c03Authentic(entry string, w *core.Rand) map[string]string {
 		switch entry {
 		case "VerifyHashed":
 			e = w.Bytes(32)
-			if w.Chance(1, 3) { // short t: r = t(1+d) - k
+			if w.Chance(1, 30) { // e + x1 >= 2n: the verifier's R = (e + x1) mod n needs n taken off twice
+				var x1 *big.Int
+				k, x1 = extremeNonce(w)
+				e = extremeE(w, x1, "")
+			} else if w.Chance(1, 3) { // short t: r = t(1+d) - k
 				small := smallValue(w)
 				rv := new(big.Int).Add(d, big.NewInt(1))
 				rv.Mul(rv, small)
@@ -241,6 +245,11 @@ func c03Byzantine(kind string, w *core.Rand) map[string]string {
 			}
 		case "offcurve":
 			P = ref.Pt{X: ref.Int(w.Bytes(31)), Y: ref.Int(w.Bytes(31))}
+			if w.Chance(1, 2) { // off the curve by a structured residual (see residualPoint)
+				if rx, ry, _, ok := residualPoint(w); ok {
+					P = ref.Pt{X: rx, Y: ry}
+				}
+			}
 			if ref.OnCurve(P.X, P.Y) {
 				continue
 			}
